@@ -371,7 +371,7 @@ func runOthers(c *mc.Ctx, r *mc.Result) {
 	if c.Shard != 0 {
 		return
 	}
-	r.Bounds["others"] = "SingleIPHeader over all lists of <=2 instances of the token alphabet; RemoteAddr over the token alphabet with ports; Chain over all ordered pairs of sub-resolver outcomes"
+	r.Bounds["others"] = "SingleIPHeader over all lists of <=2 instances of the token alphabet; RemoteAddr over the token alphabet with ports; Chain over all triples of sub-resolver outcomes, and one Chain over every sequence of <=3 requests with such triples"
 	sh, err := clientip.NewSingleIPHeader("X-Real-Ip")
 	if err != nil {
 		r.Errors = append(r.Errors, err.Error())
@@ -446,6 +446,63 @@ func runOthers(c *mc.Ctx, r *mc.Result) {
 			}
 		}
 	}
+	// one chain serving several requests: the answer for a request is the first success on THAT request, whatever
+	// the chain answered before; sub-resolvers read their outcome from a request header; every sequence of 2 and 3
+	// requests over the 27 outcome triples
+	mkh := func(i int) fox.ClientIPResolver {
+		return fox.ClientIPResolverFunc(func(c fox.Context) (*net.IPAddr, error) {
+			v := c.Request().Header.Get(fmt.Sprintf("X-R%d", i))
+			if v == "" {
+				return nil, errors.New("fail")
+			}
+			return &net.IPAddr{IP: net.ParseIP(v)}, nil
+		})
+	}
+	var triples [][3]string
+	for _, a := range outcomes {
+		for _, b := range outcomes {
+			for _, d := range outcomes {
+				triples = append(triples, [3]string{a, b, d})
+			}
+		}
+	}
+	shared := clientip.NewChain(mkh(0), mkh(1), mkh(2))
+	ask := func(t [3]string) (string, string) {
+		extra := map[string][]string{}
+		w := "error"
+		for i := 2; i >= 0; i-- {
+			if t[i] != "" {
+				extra[fmt.Sprintf("X-R%d", i)] = []string{t[i]}
+				w = t[i]
+			}
+		}
+		got, err, pv := call(shared, "", nil, "", extra)
+		if pv != nil {
+			return fmt.Sprintf("panic: %v", pv), w
+		}
+		return render(got, err), w
+	}
+	var seqs func(prefix [][3]string, n int)
+	seqs = func(prefix [][3]string, n int) {
+		if len(prefix) > 0 {
+			for _, t := range prefix[:len(prefix)-1] {
+				ask(t)
+			}
+			got, w := ask(prefix[len(prefix)-1])
+			r.Evaluations++
+			r.DistinctNontrivial++
+			if got != w {
+				r.Violate("others", "wrong-entry", fmt.Sprintf("one Chain asked for the requests %q in turn answered the last one with %s, want %s (the first success on that request)", prefix, got, w), Case{Resolver: "Chain", Lines: []string{fmt.Sprint(prefix)}})
+			}
+		}
+		if len(prefix) == n {
+			return
+		}
+		for _, t := range triples {
+			seqs(append(append([][3]string{}, prefix...), t), n)
+		}
+	}
+	seqs(nil, 3)
 	empty := clientip.NewChain()
 	if got, err, _ := call(empty, "", nil, "", nil); err == nil && got != nil {
 		r.Violate("others", "wrong-entry", "empty Chain returned an address", Case{Resolver: "Chain"})
